@@ -454,6 +454,234 @@ theorem cyl_candidates_in_box (nr nz : ℕ) (hn : 0 < nz) (periodic : Bool) (mas
 
 end DV.C02
 
+/-! ### cylindrical grids: the candidates are the components that touch the axis (any image, z not periodic) -/
+namespace DV.C02
+open DV.Merge DV.MergeInv DV.Label DV.LabelInv DV.GridGeom DV.Cyl Relation
+
+theorem foldl_max_ge (l : List ℕ) (a : ℕ) : a ≤ l.foldl max a ∧ ∀ x ∈ l, x ≤ l.foldl max a := by
+  induction l generalizing a with
+  | nil => simp
+  | cons y l ih =>
+    obtain ⟨h1, h2⟩ := ih (max a y)
+    simp only [List.foldl_cons]
+    refine ⟨le_trans (le_max_left a y) h1, ?_⟩
+    intro x hx
+    rcases List.mem_cons.mp hx with rfl | hx
+    · exact le_trans (le_max_right a x) h1
+    · exact h2 x hx
+
+theorem getD_le_foldl_max (l : List ℕ) (c : ℕ) : l.getD c 0 ≤ l.foldl max 0 := by
+  by_cases hc : c < l.length
+  · rw [List.getD_eq_getElem?_getD, List.getElem?_eq_getElem hc]
+    exact (foldl_max_ge l 0).2 _ (List.getElem_mem hc)
+  · rw [List.getD_eq_getElem?_getD, List.getElem?_eq_none (by omega)]; simp
+
+theorem labelExec_length (shape : List ℕ) (mask : ℕ → Bool) : (labelExec shape mask).length = numCells shape := by
+  unfold labelExec; simp
+
+theorem foldl_max_le (l : List ℕ) (a b : ℕ) (ha : a ≤ b) (h : ∀ x ∈ l, x ≤ b) : l.foldl max a ≤ b := by
+  induction l generalizing a with
+  | nil => simpa
+  | cons x xs ih =>
+    simp only [List.foldl_cons]
+    exact ih _ (max_le ha (h x (by simp))) (fun y hy => h y (by simp [hy]))
+
+theorem foldl_max_mem (l : List ℕ) (a : ℕ) : l.foldl max a = a ∨ l.foldl max a ∈ l := by
+  induction l generalizing a with
+  | nil => left; rfl
+  | cons x xs ih =>
+    simp only [List.foldl_cons]
+    rcases ih (max a x) with h | h
+    · rcases le_total a x with hax | hax
+      · right; rw [h, max_eq_right hax]; simp
+      · left; rw [h, max_eq_left hax]
+    · right; exact List.mem_cons_of_mem _ h
+
+
+
+/-- the clusters of a labelled image, with their labels: cluster number `j+1` is the label class of an image cell that
+carries the label `j+1` -/
+theorem clustersOf_reps (shape : List ℕ) (mask : ℕ → Bool) (hmask : ∀ c, mask c = true → c < numCells shape) :
+    let L := labelFn shape mask
+    (clustersOf (labelExec shape mask)).Pairwise (fun a b => a.label ≠ b.label) ∧
+    (∀ cl ∈ clustersOf (labelExec shape mask), ∃ c0, mask c0 = true ∧ L c0 = cl.label ∧
+      cl.cells = (List.range (numCells shape)).filter fun c => L c == L c0) ∧
+    (∀ c0, mask c0 = true → ∃ cl ∈ clustersOf (labelExec shape mask), cl.label = L c0) := by
+  intro L
+  obtain ⟨hpos, _, _, hgap⟩ := labelExec_isLabelling shape mask hmask
+  set labels := labelExec shape mask with hlabels
+  have hL : ∀ c, L c = labels.getD c 0 := fun c => rfl
+  have hlen : labels.length = numCells shape := labelExec_length shape mask
+  set K := labels.foldl max 0 with hK
+  have hKatt : K = 0 ∨ ∃ c, mask c = true ∧ L c = K := by
+    rcases foldl_max_mem labels 0 with h | h
+    · left; exact h
+    · obtain ⟨i, hi, hie⟩ := List.getElem_of_mem h
+      by_cases h0 : K = 0
+      · left; exact h0
+      · right
+        have : L i = K := by rw [hL, List.getD_eq_getElem?_getD, List.getElem?_eq_getElem hi]; simpa using hie
+        have hp : 0 < L i := by omega
+        exact ⟨i, (hpos i).mp hp, this⟩
+  refine ⟨?_, ?_, ?_⟩
+  · unfold clustersOf
+    simp only
+    rw [List.pairwise_map]
+    exact (List.pairwise_lt_range (n := K)).imp (fun h => by simp only; omega)
+  · intro cl hcl
+    unfold clustersOf at hcl
+    simp only [List.mem_map, List.mem_range] at hcl
+    obtain ⟨j, hj, rfl⟩ := hcl
+    rcases hKatt with h0 | ⟨cK, mK, hcK⟩
+    · omega
+    · have hjK : j + 1 ≤ L cK := by omega
+      obtain ⟨c', hc'⟩ := hgap cK mK (j + 1) (by omega) hjK
+      have hc'' : L c' = j + 1 := hc'
+      have hp' : 0 < L c' := by omega
+      refine ⟨c', (hpos c').mp hp', hc'', ?_⟩
+      simp only [hlen]
+      apply List.filter_congr
+      intro c _
+      rw [hc'', hL]
+  · intro c0 m0
+    have hp : 0 < L c0 := (hpos c0).mpr m0
+    have hle : L c0 ≤ K := by rw [hL]; exact getD_le_foldl_max labels c0
+    refine ⟨⟨L c0 - 1 + 1, (List.range labels.length).filter fun c => labels.getD c 0 == L c0 - 1 + 1⟩, ?_, by simp only; omega⟩
+    unfold clustersOf
+    simp only [List.mem_map, List.mem_range]
+    exact ⟨L c0 - 1, by omega, rfl⟩
+
+theorem exists_reps {α β : Type} (Q : α → β → Prop) : ∀ l : List α, (∀ a ∈ l, ∃ b, Q a b) → ∃ r : List β, List.Forall₂ Q l r
+  | [], _ => ⟨[], List.Forall₂.nil⟩
+  | a :: l, h => by
+    obtain ⟨b, hb⟩ := h a (by simp)
+    obtain ⟨r, hr⟩ := exists_reps Q l (fun x hx => h x (List.mem_cons_of_mem _ hx))
+    exact ⟨b :: r, List.Forall₂.cons hb hr⟩
+
+
+theorem forall₂_mem_right {α β : Type} {Q : α → β → Prop} : ∀ {l : List α} {r : List β}, List.Forall₂ Q l r →
+    ∀ b ∈ r, ∃ a ∈ l, Q a b
+  | _, _, List.Forall₂.nil, b, hb => by simp at hb
+  | _, _, List.Forall₂.cons (a := a) (l₁ := l) h ht, b, hb => by
+    rcases List.mem_cons.mp hb with rfl | hb'
+    · exact ⟨a, by simp, h⟩
+    · obtain ⟨a', ha', hq⟩ := forall₂_mem_right ht b hb'
+      exact ⟨a', List.mem_cons_of_mem _ ha', hq⟩
+
+theorem forall₂_mem_left {α β : Type} {Q : α → β → Prop} : ∀ {l : List α} {r : List β}, List.Forall₂ Q l r →
+    ∀ a ∈ l, ∃ b ∈ r, Q a b
+  | _, _, List.Forall₂.nil, a, ha => by simp at ha
+  | _, _, List.Forall₂.cons (b := b) (l₂ := r) h ht, a, ha => by
+    rcases List.mem_cons.mp ha with rfl | ha'
+    · exact ⟨b, by simp, h⟩
+    · obtain ⟨b', hb', hq⟩ := forall₂_mem_left ht a ha'
+      exact ⟨b', List.mem_cons_of_mem _ hb', hq⟩
+
+theorem forall₂_pairwise {α β : Type} {Q : α → β → Prop} {P : α → α → Prop} {P' : β → β → Prop}
+    (hPP : ∀ a b a' b', Q a a' → Q b b' → P a b → P' a' b') :
+    ∀ {l : List α} {r : List β}, List.Forall₂ Q l r → l.Pairwise P → r.Pairwise P'
+  | _, _, List.Forall₂.nil, _ => List.Pairwise.nil
+  | _, _, List.Forall₂.cons h ht, hp => by
+    rw [List.pairwise_cons] at hp ⊢
+    refine ⟨?_, forall₂_pairwise hPP ht hp.2⟩
+    intro b' hb'
+    obtain ⟨b, hb, hq⟩ := forall₂_mem_right ht b' hb'
+    exact hPP _ _ _ _ h hq (hp.1 b hb)
+
+theorem forall₂_map_eq {α β γ : Type} {Q : α → β → Prop} (f : α → γ) (g : β → γ) (hfg : ∀ a b, Q a b → f a = g b) :
+    ∀ {l : List α} {r : List β}, List.Forall₂ Q l r → l.map f = r.map g
+  | _, _, List.Forall₂.nil => rfl
+  | _, _, List.Forall₂.cons h ht => by
+    simp only [List.map_cons, hfg _ _ h, forall₂_map_eq f g hfg ht]
+
+/-- **C02 on a cylindrical grid without periodic z, for ANY binary image**: the candidates of the model of
+`_locate_droplets_in_mask_cylindrical` correspond one-to-one to the connected components (cells connect through faces)
+that touch the symmetry axis: there is a list of representatives — image cells of pairwise different components, each
+component containing a cell on the axis, every on-axis image cell's component represented — such that the candidates are,
+in this order, (mean height + 1/2, total weight) of the representatives' components.  In particular an image with no
+component on the axis yields no candidate (`cyl_no_axis_no_candidate`). -/
+theorem cyl_candidates_are_components (nr nz : ℕ) (hnz : 0 < nz) (mask : ℕ → Bool)
+    (hmask : ∀ c, mask c = true → c < numCells [nr, nz]) :
+    let L := labelFn [nr, nz] mask
+    ∃ reps : List ℕ,
+      (∀ c0 ∈ reps, mask c0 = true ∧ ∃ c, L c = L c0 ∧ c / nz = 0) ∧
+      reps.Pairwise (fun a b => L a ≠ L b) ∧
+      (∀ c, mask c = true → c / nz = 0 → ∃ c0 ∈ reps, L c0 = L c) ∧
+      candidates nr nz false mask = some (reps.map fun c0 =>
+        (Cluster.zpos nz ⟨0, (List.range (numCells [nr, nz])).filter fun c => L c == L c0⟩,
+         Cluster.weight nz ⟨0, (List.range (numCells [nr, nz])).filter fun c => L c == L c0⟩)) := by
+  intro L
+  obtain ⟨hpw, hcls, hall⟩ := clustersOf_reps [nr, nz] mask hmask
+  set clusters := clustersOf (labelExec [nr, nz] mask) with hclusters
+  set on := clusters.filter (Cluster.onAxis nz) with hon
+  have hQ : ∀ cl ∈ on, ∃ c0, (mask c0 = true ∧ L c0 = cl.label ∧
+      cl.cells = (List.range (numCells [nr, nz])).filter fun c => L c == L c0) :=
+    fun cl hcl => hcls cl (List.mem_of_mem_filter hcl)
+  obtain ⟨reps, hreps⟩ := exists_reps _ on hQ
+  refine ⟨reps, ?_, ?_, ?_, ?_⟩
+  · intro c0 hc0
+    obtain ⟨cl, hcl, hm, _, hcells⟩ := forall₂_mem_right hreps c0 hc0
+    refine ⟨hm, ?_⟩
+    have hax : Cluster.onAxis nz cl = true := (List.mem_filter.mp hcl).2
+    unfold Cluster.onAxis rIdx at hax
+    simp only [List.any_eq_true, beq_iff_eq] at hax
+    obtain ⟨c, hc, hc0'⟩ := hax
+    rw [hcells] at hc
+    have := (List.mem_filter.mp hc).2
+    exact ⟨c, by simpa using this, hc0'⟩
+  · refine forall₂_pairwise ?_ hreps (hpw.sublist List.filter_sublist)
+    intro a b a' b' ha hb hab
+    rw [ha.2.1, hb.2.1]; exact hab
+  · intro c mc hc0
+    obtain ⟨cl, hcl, hlab⟩ := hall c mc
+    obtain ⟨c0', _, hl0, hcells⟩ := hcls cl hcl
+    have hcmem : c ∈ cl.cells := by
+      rw [hcells]
+      exact List.mem_filter.mpr ⟨List.mem_range.mpr (hmask c mc), by simp only [beq_iff_eq]; rw [hl0, hlab]⟩
+    have hax : Cluster.onAxis nz cl = true := by
+      unfold Cluster.onAxis rIdx
+      simp only [List.any_eq_true, beq_iff_eq]
+      exact ⟨c, hcmem, hc0⟩
+    obtain ⟨c0, hc0r, _, hl, _⟩ := forall₂_mem_left hreps cl (List.mem_filter.mpr ⟨hcl, hax⟩)
+    exact ⟨c0, hc0r, by rw [hl, hlab]⟩
+  · unfold candidates
+    simp only [Bool.false_eq_true, if_false]
+    unfold single
+    simp only
+    rw [← hclusters, ← hon]
+    have hns : (on.any fun cl => cl.spans nz nz) = false := by
+      rw [List.any_eq_false]
+      intro cl _
+      unfold Cluster.spans zIdx
+      simp only [Bool.and_eq_true, List.any_eq_true, decide_eq_true_eq, not_and, not_exists]
+      intro _ c _
+      exact Nat.not_le.mpr (Nat.mod_lt _ hnz)
+    rw [hns]
+    simp only [Bool.false_eq_true, if_false, Option.some.injEq]
+    apply forall₂_map_eq _ _ _ hreps
+    intro cl c0 hq
+    have h1 : Cluster.zpos nz cl = Cluster.zpos nz ⟨0, cl.cells⟩ := rfl
+    have h2 : Cluster.weight nz cl = Cluster.weight nz ⟨0, cl.cells⟩ := rfl
+    rw [h1, h2, hq.2.2]
+
+/-- an image with no cell on the symmetry axis yields no candidate -/
+theorem cyl_no_axis_no_candidate (nr nz : ℕ) (hnz : 0 < nz) (mask : ℕ → Bool)
+    (hmask : ∀ c, mask c = true → c < numCells [nr, nz]) (hno : ∀ c, mask c = true → c / nz ≠ 0) :
+    candidates nr nz false mask = some [] := by
+  obtain ⟨reps, h1, _, _, h4⟩ := cyl_candidates_are_components nr nz hnz mask hmask
+  have : reps = [] := by
+    cases reps with
+    | nil => rfl
+    | cons c0 t =>
+      obtain ⟨_, c, hl, hc⟩ := h1 c0 (by simp)
+      obtain ⟨hpos, _, _, _⟩ := labelExec_isLabelling [nr, nz] mask hmask
+      have m0 := (h1 c0 (by simp)).1
+      have : mask c = true := (hpos c).mp (by rw [hl]; exact (hpos c0).mpr m0)
+      exact absurd hc (hno c this)
+  rw [h4, this]; rfl
+
+end DV.C02
+
 /-! ### known finding D21: the 'spanning' test of the periodic cylindrical branch
 
 `slices[1].start == 0 and slices[1].stop > nz` (on the 3× padded image) is meant to detect an on-axis component that
